@@ -4,5 +4,6 @@ CONSTANTS
   Sizes <- S4
   Cuts <- CutsBig
   PersistentReader = TRUE
+  BreakAllowed = FALSE
 INVARIANT Emit
 CHECK_DEADLOCK FALSE
